@@ -247,11 +247,103 @@ def mm_class(pol):
     n0, nN = Real('n0', 1), Real('nN', 1)
     th0, thN = Real('th0'), Real('thN')
     c0, cN = cos(th0), cos(thN)
-    assume(And(c0 > 0, cN > 0, a * d + b * c == 1))
-    from pvc.symnp import asarray
-    M = asarray([[cx(a), cx(0, -b)], [cx(0, -c), cx(d)]]) if MODE == 'symbolic' else __import__('numpy').array([[a, -1j * b], [-1j * c, d]])
+    if MODE != 'symbolic' and a != 0:
+        d = (1 - b * c) / a          # concrete runs: draw a member of the class (unimodular) instead of waiting for one
+    assume(And(c0 > 0, cN > 0, (a * d + b * c == 1) if MODE == 'symbolic' else approx(a * d + b * c, 1, 1e-9)))
+    if MODE == 'symbolic':
+        from pvc.symnp import asarray
+        M = asarray([[cx(a), cx(0, -b)], [cx(0, -c), cx(d)]])
+    else:
+        M = __import__('numpy').array([[a, -1j * b], [-1j * c, d]])
     A = call(TF + 'multilayer_matrix_' + pol, n0, th0, [M], nN, thN)
     check('A00-nonzero', abs2(elem(A, 0, 0)) > 0)
     r = call(TF + 'rtot', A)
     t = call(TF + 'ttot', A)
     check('energy', approx(abs2(r) + (nN * cN) / (n0 * c0) * abs2(t), 1))
+
+
+@harness('C17', 'bounded/stacks-against-the-textbook-matrix-method', kind='bounded', variants=['oracle', 'labels-fresnel-brewster', 'batched-nd'],
+         fuc=['prysm.thinfilm.multilayer_stack_rt', 'prysm.thinfilm.multilayer_matrix_s', 'prysm.thinfilm.multilayer_matrix_p',
+              'prysm.thinfilm.characteristic_matrix_s', 'prysm.thinfilm.characteristic_matrix_p', 'prysm.thinfilm.rtot', 'prysm.thinfilm.ttot',
+              'prysm.thinfilm.snell_aor', 'prysm.thinfilm.fresnel_rs', 'prysm.thinfilm.fresnel_rp', 'prysm.thinfilm.fresnel_ts',
+              'prysm.thinfilm.fresnel_tp', 'prysm.thinfilm.brewsters_angle'])
+def bounded_stacks(which):
+    """BOUNDED (complex indices -- absorbing layers -- and the polarisation label as a string are outside the real-valued contract
+    model): seeded stacks of 1..6 layers, lossless and absorbing (n + ik, k in [0, 0.5]), thickness 0..0.6 um, every angle below the
+    critical angle of each layer, ambient index 1..1.5, polarisation labels 'p' 'P' 's' 'S', against an independent
+    characteristic-matrix computation written from the textbook in the harness (admittances eta_s = n cos, eta_p = n / cos;
+    R = |(eta0 B - C)/(eta0 B + C)|^2, T = 4 eta0 Re(eta_sub)/|eta0 B + C|^2); R + T <= 1 with equality for lossless stacks; one-layer
+    stacks against the Fresnel functions and Brewster's angle under every label; N-D batched stacks against the per-element loop."""
+    import numpy as np
+    rng = np.random.default_rng(Int('seed', 0, 10 ** 6))
+    tf = get('prysm.thinfilm')
+    label = str(rng.choice(['p', 'P', 's', 'S']))
+    pol = label.lower()
+    n0 = float(rng.uniform(1, 1.5))
+    lam = float(rng.uniform(0.4, 2.0))
+    aoi = float(rng.uniform(0, 80)) if rng.random() < 0.8 else 0.0
+    if n0 * np.sin(np.radians(aoi)) >= 1.29:
+        aoi = 20.0
+
+    def oracle(stack):
+        s = n0 * np.sin(np.radians(aoi))
+
+        def eta(n):
+            c = np.sqrt(1 - (s / n) ** 2 + 0j)
+            return (n * c if pol == 's' else n / c), c
+        M = np.eye(2, dtype=complex)
+        for n, d in stack[:-1]:
+            e, c = eta(n)
+            dl = 2 * np.pi * n * d * c / lam
+            M = M @ np.array([[np.cos(dl), -1j * np.sin(dl) / e], [-1j * e * np.sin(dl), np.cos(dl)]])
+        es, e0 = eta(stack[-1][0])[0], eta(n0)[0]
+        B, C = M @ np.array([1, es])
+        return abs((e0 * B - C) / (e0 * B + C)) ** 2, 4 * e0.real * es.real / abs(e0 * B + C) ** 2
+
+    def RT(stack, lab=label):
+        r, t = tf.multilayer_stack_rt(stack, lam, lab, aoi=aoi, ambient_index=n0)
+        nN = complex(stack[-1][0]).real
+        cN = np.sqrt(1 - (n0 * np.sin(np.radians(aoi)) / nN) ** 2)
+        return abs(r) ** 2, nN * cN / (n0 * np.cos(np.radians(aoi))) * abs(t) ** 2
+    if which == 'oracle':
+        L = int(rng.integers(1, 7))
+        absorbing = rng.random() < 0.6
+        stack = [(complex(rng.uniform(1.3, 2.5), rng.uniform(0, 0.5) if (absorbing and rng.random() < 0.7) else 0.0), float(rng.uniform(0, 0.6)))
+                 for _ in range(L - 1)] + [(complex(rng.uniform(1.3, 2.5)), float(rng.uniform(0, 1)))]
+        lossless = all(complex(n).imag == 0 for n, _ in stack)
+        if lossless and rng.random() < 0.5:
+            stack = [(n.real, d) for n, d in stack]
+        R, T = RT(stack)
+        Ro, To = oracle(stack)
+        check('reflectance-is-the-textbook-value', bool(np.isclose(R, Ro, rtol=1e-9, atol=1e-12)))
+        check('transmittance-is-the-textbook-value', bool(np.isclose(T, To, rtol=1e-9, atol=1e-12)))
+        check('R+T<=1', bool(R + T <= 1 + 1e-9))
+        if lossless:
+            check('R+T=1-for-lossless-layers', bool(np.isclose(R + T, 1, rtol=1e-9)))
+        Rl, Tl = RT(stack, lab=label.swapcase())
+        check('label-case-does-not-matter', bool(np.isclose(Rl, R, rtol=1e-12) and np.isclose(Tl, T, rtol=1e-12)))
+    elif which == 'labels-fresnel-brewster':
+        n1, d1 = float(rng.uniform(1.3, 2.5)), float(rng.uniform(0, 1))
+        th0 = np.radians(aoi)
+        th1 = tf.snell_aor(n0, n1, th0, degrees=False)
+        fr = getattr(tf, 'fresnel_r' + pol)(n0, n1, th0, th1)
+        ft = getattr(tf, 'fresnel_t' + pol)(n0, n1, th0, th1)
+        r, t = tf.multilayer_stack_rt([(n1, d1)], lam, label, aoi=aoi, ambient_index=n0)
+        check('one-layer-stack-is-the-fresnel-interface', bool(np.isclose(abs(r) ** 2, abs(fr) ** 2, rtol=1e-9, atol=1e-14) and np.isclose(abs(t) ** 2, abs(ft) ** 2, rtol=1e-9)))
+        thb = float(tf.brewsters_angle(n0, n1, deg=True))
+        for lab in ('p', 'P'):
+            rb, _ = tf.multilayer_stack_rt([(n1, d1)], lam, lab, aoi=thb, ambient_index=n0)
+            check('rp-vanishes-at-brewster-under-label-' + lab, bool(abs(rb) < 1e-9))
+    else:
+        L = int(rng.integers(1, 4))
+        shp = tuple(int(v) for v in rng.integers(1, 4, int(rng.integers(1, 4))))
+        nn = rng.uniform(1.3, 2.5, (L,) + shp)
+        dd = rng.uniform(0, 0.6, (L,) + shp)
+        stack = np.stack([nn, dd], axis=1)           # (L, 2, ...)
+        rb, tb = tf.multilayer_stack_rt(stack, lam, label, aoi=aoi, ambient_index=n0)
+        check('batched-shape', np.shape(rb) == shp and np.shape(tb) == shp)
+        ok = True
+        for e in np.ndindex(*shp):
+            rs, ts = tf.multilayer_stack_rt([(float(nn[(k,) + e]), float(dd[(k,) + e])) for k in range(L)], lam, label, aoi=aoi, ambient_index=n0)
+            ok &= bool(np.isclose(rb[e], rs, rtol=1e-9, atol=1e-12) and np.isclose(tb[e], ts, rtol=1e-9, atol=1e-12))
+        check('batched-equals-the-per-element-loop', ok)
